@@ -47,7 +47,7 @@ def strategy(tier):
         demo_step = st.one_of(
             programs.txn_strategy(dallow), programs.txn_strategy(dallow),
             st.tuples(st.just('push')).map(list), st.tuples(st.just('pop'), st.booleans()).map(list),
-            st.tuples(st.just('pack'), st.integers(0, 12), st.sampled_from([None, None, 0])).map(list),
+            st.tuples(st.just('pack'), st.integers(0, 12), st.sampled_from([None, None, 0, 1])).map(list),
             st.tuples(st.just('clock'), st.sampled_from(['stall', 'back']), st.integers(1, 50)).map(list),
             st.tuples(st.just('alloc'), st.integers(1, 3)).map(list),
             st.tuples(st.just('alloc_in_txn'), st.integers(1, 3)).map(list))
@@ -479,7 +479,7 @@ def execute(case):
                 r.storage = below
                 out.label('pop')
             elif k == 'pack':
-                if op[2] is None and case['changes'] == 'default' and not len(base_model.oids()) and (
+                if op[2] in (None, 1) and case['changes'] == 'default' and not len(base_model.oids()) and (
                         Z64 not in r.model.oids() or r.model.current(Z64)[1] is None):
                     continue        # garbage collection presupposes a root object (callers' domain)
                 try:
